@@ -204,10 +204,77 @@ def test_state_between_reads(r, n):
             return
 
 
+def fbits(fmt, x):
+    return int.from_bytes(struct.pack(fmt, x), "little")
+
+
+def test_float_histories(r):
+    """A primitive's result depends on its arguments only, not on the calls made before it: every ordered pair of special values
+    (both zeros, infinities, NaN, extremes, neighbours) is written back to back through the scalar float primitives."""
+    for name, fmt, bl in (("f16", "<e", 16), ("f32", "<f", 32), ("f64", "<d", 64)):
+        tiny = struct.unpack(fmt, (1).to_bytes(bl // 8, "little"))[0]
+        big = struct.unpack(fmt, ((1 << (bl - 1)) - 1 - (1 << {16: 10, 32: 23, 64: 52}[bl])).to_bytes(bl // 8, "little"))[0]
+        specials = [0.0, -0.0, 1.0, -1.0, float("inf"), float("-inf"), float("nan"), tiny, -tiny, big, -big, 0.5, -0.5, 2.0, 1.5]
+        for off in (0, 3):
+            for a in specials:
+                for b in specials:
+                    got = []
+                    for x in (a, b, a):
+                        ser = ns.Serializer.new((off + bl + 7) // 8 + 1)
+                        if off:
+                            ser.add_unaligned_unsigned(0, off)
+                        (getattr(ser, "add_aligned_" + name) if off == 0 else getattr(ser, "add_unaligned_" + name))(x)
+                        C["calls"] += 1
+                        got.append((bits_of(ser.buffer) >> off) & ((1 << bl) - 1))
+                    for x, g in zip((a, b, a), got):
+                        if x == x and g != fbits(fmt, x):
+                            mismatch("Serializer.add_%s(%r) at offset %d right after writing %r / %r in other serializers: bits %x, expected %x" % (name, x, off, a, b, g, fbits(fmt, x)))
+                            return
+                    # and reading: the same bytes read twice with another value read in between
+                    vals = []
+                    for x in (a, b, a):
+                        des = ns.Deserializer.new([memoryview(struct.pack(fmt, x))])
+                        y = getattr(des, "fetch_aligned_" + name)()
+                        C["calls"] += 1
+                        vals.append(y)
+                    for x, y in zip((a, b, a), vals):
+                        if not ((x != x and y != y) or (y == x and math.copysign(1.0, y) == math.copysign(1.0, x))):
+                            mismatch("Deserializer.fetch_aligned_%s of %r read right after %r / %r: %r" % (name, x, a, b, y))
+                            return
+
+
+def test_all_halves(idx, nproc):
+    """Every one of the 65,536 half-precision patterns (this process takes every nproc-th): written value-for-value, read back class- and
+    value-exact, in increasing and then in a scrambled order."""
+    hs = [h for h in range(1 << 16) if h % nproc == idx]
+    rr = random.Random(idx)
+    for order in (hs, rr.sample(hs, len(hs))):
+        for h in order:
+            x = struct.unpack("<e", h.to_bytes(2, "little"))[0]
+            ser = ns.Serializer.new(3)
+            ser.add_aligned_f16(x)
+            C["calls"] += 1
+            g = bits_of(ser.buffer) & 0xFFFF
+            if x == x and g != h:
+                mismatch("Serializer.add_aligned_f16(half 0x%04x = %r): bits 0x%04x" % (h, x, g))
+                return
+            if x != x and not ((g & 0x7C00) == 0x7C00 and (g & 0x3FF)):
+                mismatch("Serializer.add_aligned_f16(NaN half 0x%04x): bits 0x%04x are not a NaN" % (h, g))
+                return
+            y = ns.Deserializer.new([memoryview(h.to_bytes(2, "little"))]).fetch_aligned_f16()
+            C["calls"] += 1
+            if not ((x != x and y != y) or (y == x and math.copysign(1.0, y) == math.copysign(1.0, x))):
+                mismatch("Deserializer.fetch_aligned_f16(half 0x%04x): %r, expected %r" % (h, y, x))
+                return
+
+
 def main():
     seed, thorough = int(sys.argv[1]), int(sys.argv[2])
+    idx, nproc = (int(sys.argv[3]), int(sys.argv[4])) if len(sys.argv) > 4 else (0, 1)
     r = random.Random(seed)
     shim()
+    test_float_histories(r)
+    test_all_halves(idx, nproc)
     test_unsigned_signed(r, 15, 6 if thorough else 2)
     test_std(r, 3000 if thorough else 400)
     test_bits_arrays(r, 4000 if thorough else 500)
